@@ -29,7 +29,13 @@ class Coll:
         op = S.frame(S.OPEN, S.open_body(self.ras, bid=self.remote_id)).hex()
         first, second = ("cO", "cI") if self.order == "out-first" else ("cI", "cO")
         st = [["accept", "cO", 3000], ["recv", "cO", 1, 2000], ["dial", "cI"], ["recv", "cI", 1, 2000]]
-        if self.order == "late-inbound":
+        if self.order == "fresh-inbound":
+            # the outbound connection becomes Established while a just-admitted inbound connection's FSM has not made its
+            # first transition yet (held at run.start): the inbound one must be closed
+            st = [["accept", "cO", 3000], ["recv", "cO", 1, 2000], ["send", "cO", op, 0], ["recv", "cO", 2, 2000], ["sleep", 30],
+                  ["arm", "run.start"], ["dial", "cI"], ["wait_event", "point.hold", 1500, "run.start"],
+                  ["send", "cO", KA, 0], ["sleep", 60], ["release", "run.start"], ["recv_eof", "cI", 800], ["sleep", 60]]
+        elif self.order == "late-inbound":
             # the inbound connection is opened only after the outbound one has completed its OPEN exchange (OpenConfirm)
             st = [["accept", "cO", 3000], ["recv", "cO", 1, 2000], ["send", "cO", op, 0], ["recv", "cO", 2, 2000], ["sleep", 30],
                   ["dial", "cI"], ["recv", "cI", 1, 1500], ["send", "cI", op, 0], ["sleep", 80],
@@ -74,6 +80,15 @@ class Coll:
         def alive(c):
             return not pre(c) and not (conns[c]["eof"] and conns[c]["eof_at"] < t_close - 5)
         survivors = [c for c in ("cO", "cI") if alive(c)]
+        if self.order == "fresh-inbound":
+            bad = []
+            if not conns["cI"]["eof"] or conns["cI"].get("read_err") == "closed-locally":
+                bad.append("the inbound connection admitted just before the outbound one became Established was not closed")
+            if any(m["t"] == 1 for m in conns["cI"]["msgs"]):
+                bad.append("an OPEN was sent on the inbound connection although the outbound one is Established")
+            if est != 1 or not alive("cO"):
+                bad.append("the Established outbound connection was disturbed (OnEstablished %d times)" % est)
+            return bad
         if self.order == "established-first":
             want = "cO"
         elif self.force == "other-established":
@@ -118,8 +133,14 @@ def items(rng, tier):
             # the three-way select is only reached when the requester's connection is the dominant speaker's
             order = "in-first" if S.dominant_of(lid, rid, las, ras) else "out-first"
             for force in ("other-established", "other-down"):
-                out.append(Coll(sid, lid, rid, las, ras, order, force))
-                sid += 1
+                # the select's choice between the ready branches is random: each forcing is repeated
+                for _ in range(4):
+                    out.append(Coll(sid, lid, rid, las, ras, order, force))
+                    sid += 1
+            c = Coll(sid, lid, rid, las, ras, "fresh-inbound")
+            c.force = "run.start"
+            out.append(c)
+            sid += 1
     return out
 
 
@@ -129,7 +150,7 @@ def sys_part(tier, rng, rep, replay):
     forced = [c for c in its if c.force]
     cov = sysrun.run_convs(PID, free, rep, extra_check=lambda c, e, o, r: c.check(r), par=8)
     # schedule points are process-wide: scenarios that arm one run alone
-    cov2 = sysrun.run_convs(PID, forced, rep, extra_check=lambda c, e, o, r: c.check(r), par=1)
+    cov2 = sysrun.run_convs(PID, forced, rep, extra_check=lambda c, e, o, r: c.check(r), par=1, confirm=5)
     for k in ("evaluations", "distinct_nontrivial", "traces_validated_against_impl", "manager_histories_replayed",
               "manager_replay_divergences", "monitor_violations"):
         cov[k] = cov.get(k, 0) + cov2.get(k, 0)
